@@ -959,11 +959,31 @@ class RTDCWriter:
                 **self.compression_kwargs)
             line_offset = 0
         else:
-            # TODO: test whether fixed length is long enough!
-            # Resize the dataset
             txt_dset = group[name]
             line_offset = txt_dset.shape[0]
-            txt_dset.resize(line_offset + lnum, axis=0)
+            if (txt_dset.dtype.kind == "S"
+                    and max_length > txt_dset.dtype.itemsize):
+                # The fixed-length string type of the existing dataset is
+                # too short for the new lines (which would be truncated
+                # silently). Rewrite the dataset with a wider string type.
+                old_lines = list(txt_dset[:])
+                old_attrs = dict(txt_dset.attrs)
+                del group[name]
+                txt_dset = group.create_dataset(
+                    name,
+                    shape=(line_offset + lnum,),
+                    dtype=f"S{max_length}",
+                    maxshape=(None,),
+                    chunks=True,
+                    fletcher32=True,
+                    **self.compression_kwargs)
+                for ii, lbytes in enumerate(old_lines):
+                    txt_dset[ii] = lbytes
+                for key in old_attrs:
+                    txt_dset.attrs[key] = old_attrs[key]
+            else:
+                # Resize the dataset
+                txt_dset.resize(line_offset + lnum, axis=0)
 
         # Write the text data line-by-line
         for ii, lbytes in enumerate(lines_as_bytes):
